@@ -759,7 +759,9 @@ class InterpMixin:
         except ZeroDivisionError as ex:
             raise PyRaise(PyExc(ZeroDivisionError, ex.args))
         except TypeError as ex:
-            if isinstance(a, Sym) or isinstance(b, Sym):
+            plain = (int, float, str, bool, list, dict, tuple, set, frozenset, type(None), bytes)
+            if not (isinstance(a, plain) and isinstance(b, plain)):
+                # a verifier-side value (symbolic scalar, modelled array, ...) lacks the operator: a modelling gap, not a TypeError of the program
                 raise Unsupported(f"binop {op.__name__} on {type(a).__name__},{type(b).__name__}")
             raise PyRaise(PyExc(TypeError, ex.args))
 
